@@ -37,6 +37,9 @@ func runC04(c *eng.Ctx, tier string) {
 	c04Gen(c, k)
 	c04Create(c, k)
 	c04CommitPoint(c, k)
+	// R-C04-8: "later calls succeed normally": a call reports success only after
+	// a save that really wrote (C03's rule: no success path around the write)
+	includeOnly(c, "R-C04-8", func(sc *eng.Ctx) { c03SaveBeforeSuccess(sc, k) }, "R-C03-1")
 }
 
 // R-C04-7: the replacement of the file is the commit point of a save: once
